@@ -7,7 +7,7 @@ from checks.nnlib import pyrepseq, hashable_ok
 PROPERTY = "C04"
 RULE = ("exhaustive: every string of length 0..L over the 3-letter amino-acid sub-alphabets ACD / CDE / AWY (chosen so that "
         "kdtree's composition bins merge or separate the letters under compression 1-3), k=1,2 (k=3 on the full universe for "
-        "kdtree, on length<=2 for hash_based); radius-boundary family for kdtree: same-letter multi-substitution pairs whose "
+        "kdtree, on all strings of length<=3 over two letters for hash_based); radius-boundary family for kdtree: same-letter multi-substitution pairs whose "
         "composition vectors lie exactly at sqrt(2)*k, k=1..40; random: amino-acid clonal families 1-60 sequences with empty "
         "strings and duplicates, k=1..3 (hash_based k<=2 on strings <= 6). Three-way oracle: engine == brute-force DP == "
         "nearest_neighbor, as multisets. Non-trivial: the true set contains an indel pair next to a repeated letter, or a "
@@ -35,6 +35,8 @@ def classify(seqs, k, want):
         cl.append("dup_pair")
     if "" in seqs:
         cl.append("empty_string")
+    if len({len(x) for x in seqs}) == 1 and any(d >= 2 for _, _, d in want):
+        cl.append("uniform_length_d>=2")
     return cl
 
 
@@ -78,7 +80,9 @@ def enum_cases(tier):
                 yield {"alphabet": alpha, "L": L if k == 1 else L - 1 + (tier == "thorough"), "k": k,
                        "engine": "hash_based", "rot": 2 * k}
             else:
-                yield {"alphabet": alpha, "L": 2, "k": 3, "engine": "hash_based", "rot": 1}
+                # radius 3 needs strings of length 3 to contain distance-3 pairs at all; a 2-letter sub-alphabet keeps
+                # the call at 15 queries (each enumerates the full radius-3 ball over the 20 letters)
+                yield {"alphabet": alpha[:2], "L": 3, "k": 3, "engine": "hash_based", "rot": 1}
     top = 20 if tier == "quick" else 40
     for n in range(1, top + 1):
         for letters in (("A", "C"), ("W", "Y"), ("C", "D")):
@@ -88,19 +92,54 @@ def enum_cases(tier):
 
 
 @st.composite
+def frame_shift_family(draw, alpha, max_len):
+    """All sequences have the SAME length; neighbours arise by frame shifts (one deletion + one insertion), rotations
+    and substitutions - the shape in which length-based pruning of an edit ball goes wrong."""
+    L = draw(st.integers(2, max_len))
+    f = "".join(draw(st.lists(st.sampled_from(alpha), min_size=L, max_size=L)))
+    out = [f]
+    for _ in range(draw(st.integers(1, 8))):
+        kind = draw(st.sampled_from(["shift_left", "shift_right", "inner_shift", "sub", "dup"]))
+        b = draw(st.sampled_from(out))
+        c = draw(st.sampled_from(alpha))
+        if kind == "shift_left":
+            out.append(b[1:] + c)
+        elif kind == "shift_right":
+            out.append(c + b[:-1])
+        elif kind == "inner_shift" and L >= 3:
+            i = draw(st.integers(0, L - 2))
+            j = draw(st.integers(0, L - 2))
+            t = b[:i] + b[i + 1:]
+            out.append(t[:j] + c + t[j:])
+        elif kind == "sub":
+            i = draw(st.integers(0, L - 1))
+            out.append(b[:i] + c + b[i + 1:])
+        else:
+            out.append(b)
+    return list(draw(st.permutations(out)))
+
+
+@st.composite
 def random_case(draw, tier="quick"):
     engine = draw(st.sampled_from(["hash_based", "kdtree", "kdtree"]))
     alpha = draw(G.alphabet(amino_only=True))
     if engine == "hash_based":
-        k = draw(st.sampled_from([1, 1, 2]))
-        if k == 1:
+        k = draw(st.sampled_from([1, 1, 1, 2, 2, 2, 2, 3]))
+        if k == 3:
+            seqs = draw(G.clonal_family(alpha=alpha, max_size=5, founder_len=(0, 3), max_edits=3))
+            seqs = [s[:3] for s in seqs]
+        elif k == 1:
             seqs = draw(G.clonal_family(alpha=alpha, max_size=60, cdr3_like=draw(st.booleans())))
         else:
             seqs = draw(G.clonal_family(alpha=alpha, max_size=14, founder_len=(2, 5), max_edits=2))
             seqs = [s[:6] for s in seqs]
+        if draw(st.integers(0, 3)) == 0 and k < 3:
+            seqs = draw(frame_shift_family(alpha, 6 if k == 2 else 12))
         return {"seqs": seqs, "k": k, "engine": engine}
     k = draw(st.sampled_from([1, 2, 2, 3, 3, 4]))
     seqs = draw(G.clonal_family(alpha=alpha, max_size=60, cdr3_like=draw(st.booleans()), max_edits=4))
+    if draw(st.integers(0, 4)) == 0:
+        seqs = draw(frame_shift_family(alpha, 14))
     case = {"seqs": seqs, "k": k, "engine": engine}
     if draw(st.booleans()):
         case["compression"] = draw(st.sampled_from([1, 2, 3, 5, 20]))
